@@ -49,7 +49,10 @@ RoundTripOK(e) ==
   /\ e.status_equal
   /\ e.obj_ok
 
-EventOK(e) == IF e.ev = "Fault" THEN FaultOK(e) ELSE RoundTripOK(e)
+\* one settings field (or all of them) set to a non-default value on the saving solver
+SettingsTripOK(e) == e.save_ok /\ e.load_ok /\ e.settings_equal /\ e.timelimit_roundtrip
+
+EventOK(e) == IF e.ev = "Fault" THEN FaultOK(e) ELSE IF e.ev = "SettingsTrip" THEN SettingsTripOK(e) ELSE RoundTripOK(e)
 
 VARIABLES l, bad
 Next == /\ l <= Len(Rec) /\ l' = l + 1
